@@ -195,6 +195,30 @@ func FieldAccesses(fn *ssa.Function, want func(FieldID) bool) []Access {
 		}
 	}
 	allInstrs(fn, func(in ssa.Instruction) {
+		// package-level variables: pseudo field {Type: "global", Field: "<pkgpath>.<name>"}
+		for _, op := range in.Operands(nil) {
+			g, ok := (*op).(*ssa.Global)
+			if !ok {
+				continue
+			}
+			id := FieldID{Type: "global", Field: g.Pkg.Pkg.Path() + "." + g.Name()}
+			if !want(id) {
+				continue
+			}
+			switch x := in.(type) {
+			case *ssa.Store:
+				if x.Addr == ssa.Value(g) {
+					add(in, id, AccWrite, false, "store")
+				}
+			case *ssa.UnOp:
+				if x.Op == token.MUL && x.X == ssa.Value(g) {
+					if add(in, id, AccRead, false, "load") && isRefKind(x.Type()) {
+						out[len(out)-1].Header = true
+					}
+					followValue(x, id, false, 1)
+				}
+			}
+		}
 		switch x := in.(type) {
 		case *ssa.FieldAddr:
 			id := fieldIDOfAddr(x)
